@@ -1087,3 +1087,13 @@ def fix_consults_pragmas():
     out.append({"name": "structural::C10::fix_consults_pragmas[control:__process_file_scan]", "ok": ctrl,
                 "info": "control: the scan path compiles the pragmas", "detail": f"found={ctrl}"})
     return out
+
+
+@check("C14", "C09", "C08", "C10")
+def protected_context_mode():
+    """PluginScanContext.__in_fix_mode is stored only by PluginScanContext.__init__ (backs its PROTECTED_FIELDS entry: whether a
+    context fixes or reports is decided when it is created and never changes)"""
+    sites = store_sites(["__in_fix_mode", "_PluginScanContext__in_fix_mode"])
+    bad = [s for s in sites if not (s[0] == "pymarkdown/plugin_manager/plugin_scan_context.py" and s[1] == "PluginScanContext.__init__")]
+    return [{"name": "structural::C14::protected[context fix mode]", "ok": bool(sites) and not bad, "info": protected_context_mode.__doc__,
+             "detail": f"store sites: {sites}; unexpected: {bad}"}]
